@@ -34,6 +34,9 @@ def run(rep, tier, seed):
             "reject_cap": 0}
     tot = semreplay.replay(rep, rows, opts)
     report(rep, tot, "C01")
+    deep = semreplay.build_deep_rows(rep, 2 if tier == "quick" else 3)
+    tot2 = semreplay.replay(rep, deep, {**opts, "spellings": 1})
+    report(rep, tot2, "C01")
     rep.cov["exhaustive"] = True
 
 
